@@ -121,6 +121,9 @@ FIXED = [
     ("C04", "C04/request-failed:gopher:plain", "b0f5438",
      "ZIP handler enabled and a *.zip file that holds an end-of-central-directory record but no readable directory (the last 22 "
      "bytes of an archive): is_zipfile() says yes, VFSZip() raises BadZipFile, connection closed without a reply in every protocol"),
+    ("C12", "C12/directory-lost:vanishes-after-stat+linkfile-gophermap:error-reply", "10d7f11",
+     "a directory presented through a gophermap, and a local link of that map whose target is removed between the handler's "
+     "exists() and its description (populatefromvfs): FileNotFoundError escapes prepare(), the whole menu is answered with an error"),
     ("C13", "C13/gopher-menu-line-broken-by-content", "c0c5532",
      "a file whose name holds CR LF followed by block-header text ('n\r\n+ADMIN:\r\n Admin: Mallory'): the name went into the "
      "menu line and the +INFO line as it was, so the Gopher+ listing of its directory showed a block (or an item) of the name's making"),
